@@ -11,14 +11,16 @@ Open Scope N_scope.
 Inductive conc : list sym -> stail -> bytes -> Prop :=
 | conc_end : conc [] TEnd []
 | conc_any t : conc [] TAny t
+| conc_star set t : Forall (fun b => In b set) t -> conc [] (TStar set) t
 | conc_cons y l tl b t : sym_inb y b = true -> conc l tl t -> conc (y :: l) tl (b :: t).
 
 Section Rel.
   Variable d : N.                           (* offset of the symbolic origin in the haystack *)
   Variable c0 : list (N * (N * N)).         (* captures recorded before the symbolic run started *)
 
+  Definition org_ok (o : org) : Prop := match o with OAbs => d = 0 | ONz => 0 < d | OUnk => True end.
   Definition R (a : sst) (s : cst) : Prop :=
-    c_pos s = s_pos a + d /\ (s_abs a = true -> d = 0) /\
+    c_pos s = s_pos a + d /\ org_ok (s_org a) /\
     conc (s_rem a) (s_tail a) (c_rem s) /\ c_caps s = shift_caps d (s_caps a) ++ c0.
 
   (* ---- UTF-8 decoding only looks at the bytes the lead byte announces *)
@@ -82,7 +84,7 @@ Section Rel.
     - inversion H; subst. split; auto. exists t; auto.
     - destruct l as [|[b|set] l]; try discriminate.
       destruct (sym_bytes n l) as [bs'|] eqn:E; [|discriminate]. inversion H; subst; clear H.
-      inversion C as [| |y' l' tl' b' t0 Hin C0 E1 E2 E3]; subst. simpl in Hin. apply N.eqb_eq in Hin; subst.
+      inversion C as [| | |y' l' tl' b' t0 Hin C0 E1 E2 E3]; subst. simpl in Hin. apply N.eqb_eq in Hin; subst.
       destruct (IH _ _ _ _ E C0) as (Hl & t' & -> & C'). split; [simpl; congruence|].
       exists t'; auto.
   Qed.
@@ -108,8 +110,15 @@ Section Rel.
     destruct a as [pa aa ra ta ca]. destruct s as [ps rs cs].
     intros (Hp & Ha & Hc & Hk). unfold s_step_cp, c_step_cp. simpl in *.
     destruct ra as [|y r].
-    - destruct ta; simpl; auto. inversion Hc; subst. reflexivity.
-    - inversion Hc as [| |y' l' tl' b t Hin Hc' E1 E2 E3]; subst. destruct y as [b0|set].
+    - destruct ta as [| |set]; simpl; auto.
+      + inversion Hc; subst. reflexivity.
+      + destruct (forallb (fun b => (b <? 128) && negb (p b)) set) eqn:Ef; simpl; auto.
+        inversion Hc as [| |set' t Hall E1 E2 E3|]; subst.
+        destruct rs as [|b t']; [reflexivity|].
+        inversion Hall as [|b' t'' Hb Ht]; subst.
+        pose proof (forallb_in _ _ _ Ef Hb) as Q. simpl in Q. apply andb_true_iff in Q as [Q1 Q2].
+        rewrite (decode_ascii _ _ Q1). apply negb_true_iff in Q2. rewrite Q2. reflexivity.
+    - inversion Hc as [| | |y' l' tl' b t Hin Hc' E1 E2 E3]; subst. destruct y as [b0|set].
       + simpl in Hin. apply N.eqb_eq in Hin; subst b.
         destruct (b0 <? 128) eqn:E128.
         * rewrite (decode_ascii _ _ E128).
@@ -154,7 +163,10 @@ Section Rel.
   Proof.
     induction l as [|x l IH]; intros syms tl rem0 pos C; simpl.
     - exists rem0; auto.
-    - inversion C as [|t|y l' tl' b t Hin C' E1 E2 E3]; subst; simpl; auto.
+    - inversion C as [|t|set t Hall|y l' tl' b t Hin C' E1 E2 E3]; subst; simpl; auto.
+      { destruct (forallb (fun b => negb (x =? b)) set) eqn:Ef; auto.
+        destruct rem0 as [|b t]; [reflexivity|]. inversion Hall as [|b' t'' Hb Ht]; subst.
+        pose proof (forallb_in _ _ _ Ef Hb) as Q. simpl in Q. apply negb_true_iff in Q. rewrite Q. reflexivity. }
       destruct y as [y|set]; simpl in Hin.
       + apply N.eqb_eq in Hin; subst b. destruct (x =? y); auto.
         specialize (IH _ _ _ (pos + 1) C').
@@ -181,8 +193,9 @@ Section Rel.
   Lemma sim_bol a s : R a s -> trel (s_at_bol a) (c_at_bol s).
   Proof.
     intros (Hp & Ha & Hc & Hk). unfold s_at_bol, c_at_bol.
-    destruct (s_abs a); simpl; auto. rewrite Hp, (Ha eq_refl), N.add_0_r.
-    destruct (s_pos a =? 0); reflexivity.
+    unfold org_ok in Ha. destruct (s_org a); simpl; auto.
+    - rewrite Hp, Ha, N.add_0_r. destruct (s_pos a =? 0); reflexivity.
+    - destruct (c_pos s =? 0) eqn:E; [apply N.eqb_eq in E; lia|reflexivity].
   Qed.
   Lemma sim_eol a s : R a s -> trel (s_at_eol a) (c_at_eol s).
   Proof.
@@ -410,7 +423,7 @@ Proof. intros ->. revert b. induction a; simpl; auto. Qed.
 Lemma item_sound abs i al : alt_ok abs i al = true ->
   forall text s t rest F,
     inv text s -> c_rem s = t ++ rest ->
-    alt_fits t rest al = true -> (abs = true -> c_pos s = 0) -> (length (c_rem s) < F)%nat ->
+    alt_fits t rest al = true -> org_ok (c_pos s) abs -> (length (c_rem s) < F)%nat ->
     cm cst F i s accept =
       Match (mkC (c_pos s + N.of_nat (length t)) rest (shift_caps (c_pos s) (a_caps al) ++ c_caps s)).
 Proof.
@@ -450,7 +463,7 @@ Proof. unfold pick. intros H. apply find_some in H. exact H. Qed.
 Lemma chain_sound : forall p r abs, chain_ok abs r p = true ->
   forall text texts rest s F,
     inv text s -> c_rem s = concat texts ++ rest -> texts_ok p texts rest = true ->
-    (abs = true -> c_pos s = 0) -> (length (c_rem s) < F)%nat ->
+    org_ok (c_pos s) abs -> (length (c_rem s) < F)%nat ->
     cm cst F r s accept =
       Match (mkC (c_pos s + N.of_nat (length (concat texts))) rest
                  (final_caps p texts rest (c_pos s) ++ c_caps s)).
@@ -474,7 +487,9 @@ Proof.
     assert (Hi1 : inv text s1) by (apply (cm_inv text F r1 s s1 Hi E1)).
     assert (HF1 : (length (c_rem s1) < F)%nat).
     { unfold s1; simpl. rewrite Hr' in HF. rewrite app_length in HF. lia. }
-    assert (E2 := IH r2 false Hc2 text ts rest s1 F Hi1 eq_refl Ht ltac:(discriminate) HF1).
+    assert (Ho1 : org_ok (c_pos s1) (next_org abs)).
+    { unfold s1; simpl. destruct abs; simpl in *; auto. lia. }
+    assert (E2 := IH r2 (next_org abs) Hc2 text ts rest s1 F Hi1 eq_refl Ht Ho1 HF1).
     change (cm cst F (RSeq r1 r2) s accept) with (cm cst F r1 s (fun s' => cm cst F r2 s' accept)).
     rewrite (first_way cst F r1 s s1 (fun s' => cm cst F r2 s' accept) E1); [|rewrite E2; discriminate].
     rewrite E2. f_equal. unfold s1; simpl. f_equal.
@@ -487,15 +502,27 @@ Proof. intros H. destruct rem0; simpl; rewrite H; reflexivity. Qed.
 
 (* THEOREM: a checked plan determines the leftmost-first search on every text of the plan *)
 Theorem plan_search r p texts rest :
-  chain_ok true r p = true -> texts_ok p texts rest = true ->
+  chain_ok OAbs r p = true -> texts_ok p texts rest = true ->
   search r (concat texts ++ rest) =
     Match (0, mkC (N.of_nat (length (concat texts))) rest (final_caps p texts rest 0)).
 Proof.
   intros Hc Ht. unfold search, fuel_for.
   set (text := concat texts ++ rest).
   assert (Hi : inv text (mkC 0 text [])) by (apply inv_start; [lia|reflexivity]).
-  pose proof (chain_sound p r true Hc text texts rest (mkC 0 text []) (S (length text)) Hi eq_refl Ht
+  pose proof (chain_sound p r OAbs Hc text texts rest (mkC 0 text []) (S (length text)) Hi eq_refl Ht
                           ltac:(reflexivity) ltac:(simpl; lia)) as E.
   simpl in E. rewrite app_nil_r in E.
   apply search_from_hit. unfold match_at. exact E.
+Qed.
+
+(* the same at any offset: a match attempt that starts at [pos] (origin known to be 0 / >= 1 / unknown) *)
+Theorem plan_match_at o r p text texts rest pos F :
+  chain_ok o r p = true -> texts_ok p texts rest = true ->
+  inv text (mkC pos (concat texts ++ rest) []) -> org_ok pos o -> (length (concat texts ++ rest) < F)%nat ->
+  match_at F r pos (concat texts ++ rest) =
+    Match (mkC (pos + N.of_nat (length (concat texts))) rest (final_caps p texts rest pos)).
+Proof.
+  intros Hc Ht Hi Ho HF. unfold match_at.
+  pose proof (chain_sound p r o Hc text texts rest (mkC pos (concat texts ++ rest) []) F Hi eq_refl Ht Ho HF) as E.
+  simpl in E. rewrite app_nil_r in E. exact E.
 Qed.
